@@ -53,6 +53,7 @@ class Out(Base):
 
 
 HOSTLOG = []          # (node, seq, ts_ticks, state_before, acc, rng0, rng1)
+LOG_ENABLED = [True]  # switched off for vmapped runs (io_callback is not supported under vmap-of-cond)
 HOSTLOCK = threading.Lock()
 
 
@@ -81,7 +82,9 @@ class Probe(BaseNode):
         rng = ss.rng
         new_rng = jax.random.split(rng)[0] if rng is not None else None
         rw = jnp.asarray(jax.random.key_data(rng) if jnp.issubdtype(rng.dtype, jax.dtypes.prng_key) else rng).reshape(-1)
-        if isinstance(acc, jax.core.Tracer):
+        if not LOG_ENABLED[0]:
+            pass
+        elif isinstance(acc, jax.core.Tracer):
             from jax.experimental import io_callback
             name = self.name
             io_callback(lambda *a: _host(name, *a), None, ss.seq, tsq, ss.state.a[0], acc, rw[0], rw[1], ordered=True)
